@@ -22,6 +22,7 @@ Theorem C04_footprint_set_partial :
          (ifunset : bool) (stored : list nat),
   (1 <= ml)%nat -> (2 <= mi)%nat -> Inv V ml mi t -> ids_ok V fresh t ->
   no_embed_below V true stored t ->
+  (forall x, mem x stored = true -> (x < fresh)%nat) ->      (* only existing objects have oids *)
   let r := tset V veq vs ml mi fresh t k v ifunset in
   forall i n n', mem i stored = true ->
     find_node V t i = Some n -> find_node V (s_tree r) i = Some n' ->
